@@ -774,7 +774,12 @@ fn part_bc(v: &Verdicts, layout: &Layout, p: usize, thorough: bool) -> u64 {
             }
             // descriptor reads into guest memory through the real raw-fd adapter
             for script in [FdScript::Full, FdScript::Short(1), FdScript::Short(len / 2 + 1), FdScript::FailAfter(0), FdScript::FailAfter(1), FdScript::FailAfter(len), FdScript::EintrThenShort(1), FdScript::ShortThenEof(1), FdScript::ShortThenEof(len / 2 + 1)] {
-                for exact in [false, true] {
+                // (through guest memory, through the region that owns the address, and through
+                // that region's volatile slice: the exact forms of the three layers differ)
+                for (exact, level) in [(false, 0usize), (true, 0), (false, 1), (true, 1), (false, 2), (true, 2)] {
+                    if level > 0 && m.find_region(GuestAddress(a)).is_none() {
+                        continue;
+                    }
                     set_state(&init);
                     prep(Start::Clean);
                     let before = dump();
@@ -829,14 +834,34 @@ fn part_bc(v: &Verdicts, layout: &Layout, p: usize, thorough: bool) -> u64 {
                             }
                         }
                     });
-                    let describe = || (format!("{}/{}/fd-read", v.which, what), format!("addr {:#x} len {} {:?} exact={}", a, len, script, exact), json!({"layout": layout.regs, "page_size": p, "addr": a, "count": len, "script": format!("{:?}", script), "exact": exact}));
+                    let describe = || (format!("{}/{}/fd-read", v.which, what), format!("addr {:#x} len {} {:?} exact={} level={}", a, len, script, exact, level), json!({"layout": layout.regs, "page_size": p, "addr": a, "count": len, "script": format!("{:?}", script), "exact": exact, "level": (["guest memory", "region", "region's volatile slice"][level])}));
                     t += 1;
                     let r = crate::crash::guarded(v.ctx, &describe, || {
-                        with_io_handler(handler, || {
-                            if exact {
-                                m.read_exact_volatile_from(GuestAddress(a), f, len).is_ok()
-                            } else {
-                                m.read_volatile_from(GuestAddress(a), f, len).is_ok()
+                        with_io_handler(handler, || match level {
+                            0 => {
+                                if exact {
+                                    m.read_exact_volatile_from(GuestAddress(a), f, len).is_ok()
+                                } else {
+                                    m.read_volatile_from(GuestAddress(a), f, len).is_ok()
+                                }
+                            }
+                            _ => {
+                                let reg = m.find_region(GuestAddress(a)).unwrap();
+                                let ra = MemoryRegionAddress(a - reg.start_addr().0);
+                                if level == 1 {
+                                    if exact {
+                                        reg.read_exact_volatile_from(ra, f, len).is_ok()
+                                    } else {
+                                        reg.read_volatile_from(ra, f, len).is_ok()
+                                    }
+                                } else {
+                                    let vs = reg.as_volatile_slice().unwrap();
+                                    if exact {
+                                        vs.read_exact_volatile_from(ra.0 as usize, f, len).is_ok()
+                                    } else {
+                                        vs.read_volatile_from(ra.0 as usize, f, len).is_ok()
+                                    }
+                                }
                             }
                         })
                     });
